@@ -79,7 +79,7 @@ def check_datagram(c, label, entry, b, isserver, payload, ts):
     c.ensure(label + ".timestamp", ets == ts if c.native else c.same_object(ets, ts) or c.prove(ets == ts))
 
 
-@harness(["C02", "C06", "C07", "C13", "C08", "C03", "C18"], "quic_out.build", functions=[QOB + ".build"],
+@harness(["C02", "C06", "C07", "C13", "C08", "C03", "C18", "C10"], "quic_out.build", functions=[QOB + ".build"],
          cases=[(v6, md) for v6 in (False, True) for md in (False, True)])
 def h_qbuild(c, ipv6, metadata):
     if c.native:
